@@ -104,6 +104,26 @@ def rowwise_checks(ck):
                                         dict(case, row=base[i], pos=j, others=idxs), expected=alone[i], observed=got[j],
                                         signature={"what": "rowwise", "W": W})
                             break
+    # results already handed out stay what they were when the handle is called again (same and different padded sizes)
+    for W in (8, 64):
+        model = nets.make_dense(rng, 5, [6, 6], k=rng.choice([1, 2, 3]))
+        net = compiled.build(model, W)
+        compiled.compile_net(net)
+        for b1, b2 in ((3, 5), (W, W), (W + 1, 2 * W), (2, W + 2)):
+            r1 = [[rng.randrange(2) for _ in range(5)] for _ in range(b1)]
+            r2 = [[rng.randrange(2) for _ in range(5)] for _ in range(b2)]
+            ck.case({"kind": "aliasing", "W": W, "batches": [b1, b2]}, kind="aliasing")
+            msg = compiled.alias_check(net, r1, r2)
+            if msg:
+                ck.disagree("a result depends on later calls: " + msg, {"W": W, "batches": [b1, b2]}, signature={"what": "aliasing", "W": W})
+        # no GroupSum: direct path
+        m2 = torch.nn.Sequential(*list(model)[:-1])
+        net2 = compiled.build(m2, W)
+        compiled.compile_net(net2)
+        msg = compiled.alias_check(net2, [[rng.randrange(2) for _ in range(5)] for _ in range(4)], [[rng.randrange(2) for _ in range(5)] for _ in range(4)])
+        ck.case({"kind": "aliasing-direct", "W": W}, kind="aliasing")
+        if msg:
+            ck.disagree("a result depends on later calls (no GroupSum): " + msg, {"W": W}, signature={"what": "aliasing", "W": W})
     # same probe rows under different word sizes
     model = nets.make_dense(rng, 6, [7, 6], k=3)
     rows = [[rng.randrange(2) for _ in range(6)] for _ in range(37)]
